@@ -194,21 +194,21 @@ def h_byte(entry: int, off: int, b: int) -> int:
 
 
 # ------------------------------------------------------------------ Roland: one symbolic byte in one sample's directory / parameter record
-_RMODEL = None
-_RBASE = []
+_RMODEL = {}
+_RBASE = {}
 
 
-def _roland_model():
-    global _RMODEL
-    if _RMODEL is None:
+def _roland_model(mode=0):
+    """three samples in one performance; the middle one (the one that gets damaged) plays in loop mode `mode`"""
+    if mode not in _RMODEL:
         from vf import rolandw
         from vf.props import c02
         model = {"volumes": [("VolA", [0])], "performances": [("Perf0", [0])], "patches": [("Patch0", [0])],
                  "partials": [("Part0", [0, 1, 2])],
-                 "samples": [dict(name="Smp0", words=c02._words(500, 1)), dict(name="Smp1", words=c02._words(5000, 2), chain=[1, 0]),
+                 "samples": [dict(name="Smp0", words=c02._words(500, 1)), dict(name="Smp1", words=c02._words(5000, 2), chain=[1, 0], mode=mode),
                              dict(name="Smp2", words=c02._words(300, 3), mode=5)]}
-        _RMODEL = rolandw.build(model)
-    return _RMODEL
+        _RMODEL[mode] = rolandw.build(model)
+    return _RMODEL[mode]
 
 
 def _roland_listing(img):
@@ -221,21 +221,21 @@ def _roland_listing(img):
     return names, exp
 
 
-def h_roland_byte(area: int, off: int, b: int) -> int:
+def h_roland_byte(area: int, off: int, b: int, mode: int = 0) -> int:
     """
-    pre: 0 <= area <= 1 and 0 <= off <= 47 and 0 <= b <= 255
+    pre: 0 <= area <= 1 and 0 <= off <= 47 and 0 <= b <= 255 and 0 <= mode <= 6
     post: _ == 1
     """
     CNT[0] += 1
-    area, off, b = conc(area, 0, 1), conc(off, 0, 47), conc(b, 0, 255)
+    area, off, b, mode = conc(area, 0, 1), conc(off, 0, 47), conc(b, 0, 255), conc(mode, 0, 6)
     with untraced():
         from vf import rolandw
         if area == 0 and off >= 32:
             return 1
-        img = bytearray(_roland_model())
-        if not _RBASE:
-            _RBASE.append(_roland_listing(img))
-        names0, exp0 = _RBASE[0]
+        img = bytearray(_roland_model(mode))
+        if mode not in _RBASE:
+            _RBASE[mode] = _roland_listing(img)
+        names0, exp0 = _RBASE[mode]
         base = (rolandw.DIR["sample"][0] + 0x20 * 1) if area == 0 else (rolandw.PAR["sample"][0] + 0x30 * 1)      # sample 1's records
         img[base + off] = b
         try:
@@ -392,10 +392,13 @@ def obligations(tier, seed):
                               "one byte of the entry", "all 256 values of that byte (realised at construct's C boundary)", stubs=["stub SAT"]))
     dir_offs = list(range(32)) if not q else [0, 15, 16, 17, 18, 28, 29, 30, 31]
     par_offs = list(range(48)) if not q else [0, 16, 19, 24, 27, 36, 40, 41, 42, 44, 45]
-    for area, offs in ((0, dir_offs), (1, par_offs)):
-        for off in offs:
-            obs.append(ob(f"C14.roland-byte/{('directory', 'parameter')[area]}@{off}", "h_roland_byte", [f"area == {area}", f"off == {off}"],
-                          "one byte of sample 1's record", "all 256 values of that byte; whole S-770 image through ls + export", stubs=["independent S-770 writer"]))
+    for mode in range(7):
+        key = q and mode != 0                    # quick: every mode on the bytes that steer the audio window, mode 0 on the whole quick list
+        for area, offs in ((0, [28, 30] if key else dir_offs), (1, [18, 19, 26, 27, 36, 40] if key else par_offs)):
+            for off in offs:
+                obs.append(ob(f"C14.roland-byte/mode={mode}/{('directory', 'parameter')[area]}@{off}", "h_roland_byte", [f"area == {area}", f"off == {off}", f"mode == {mode}"],
+                              "one byte of sample 1's record", f"all 256 values of that byte; damaged sample in loop mode {mode}; whole S-770 image through ls + export",
+                              stubs=["independent S-770 writer"]))
     obs.append(ob("C14.volume", "h_volume", [], "number of entries, which one/two fail, exception type", "<= 5 entries, 6 exception types"))
     obs.append(ob("C14.roland/safelist", "h_safelist", [], "count, failing positions, exception type", "<= 5 records, 6 exception types", stubs=["failing sub-parser"]))
     obs.append(ob("C14.roland/partial-refs", "h_partial", [], "failing references, exception type", "4 references, 4 exception types",
